@@ -80,6 +80,7 @@ ASSUMPTIONS = [
     "PARTIAL: structural MPD rules (required attributes per MPD@type, id uniqueness, no empty AdaptationSet, URL-template identifiers, lexical validity of the typed attributes of whole documents) are decided by exploration of the real application, not by proof",
     "'attributes required for its MPD@type' is read as the attributes whose presence ISO/IEC 23009-1 Table 3 ties to the type: profiles and minBufferTime always, availabilityStartTime and publishTime for dynamic, mediaPresentationDuration or a duration on every Period for static. The type-independent clause (mediaPresentationDuration when neither minimumUpdatePeriod nor the last Period@duration is present) is not part of the property; dynamic manifests with mup<=0 and manifest_ef.mpd do omit all three.",
     "stream layouts: track ids are distinct across content types (the video AdaptationSet is always id 1) and no two text files share a track id - what the multi-period tables enforce with a unique (period, track id) constraint; single-period streams outside this are ledger D25a/D25b (replayed every run). Audio files may share track ids and mix codec families.",
+    "stored media: every track ends within its last segment of the timing reference's end (C01's hypothesis H1: sum of all but the last segment < reference duration, advertised last duration >= 1) and fragments are numbered from >= 1; outside this: ledger D26 (negative S@d), D27 (negative presentationTimeOffset), replayed every run",
     "explicit start instants are <= now and carry a UTC offset of at most +-14:00 (ledger D18-offset-beyond-14h is replayed every run; a start after now is answered 404 since 5b4a682); clockDrift small",
     "hostile strings are drawn from XML-legal characters (no C0 controls other than tab): & < > \" ' ]]> markup fragments, URL and Jinja metacharacters, non-ASCII, long",
     "Host headers: whatever a WSGI environ can carry (latin-1); Werkzeug 3.1 replaces a syntactically invalid Host by an empty host name",
@@ -102,9 +103,9 @@ class Env:
         self.client = self.app.client()
         self.clock = appboot.Clock("2024-05-06T07:08:09Z")
 
-    def fetch(self, case):
+    def fetch(self, case, url=None, now=None):
         with self.clock:
-            return self.W.fetch(self.app, self.client, self.clock, case)
+            return self.W.fetch(self.app, self.client, self.clock, case, url, now)
 
 
 def env() -> Env:
@@ -158,8 +159,13 @@ def ch_escape(ctx) -> Channel:
     outs = _driver(ch, lines)
     for i, s in enumerate(strings):
         ch.evaluations += 1
-        real_x = xmlSafe(s)
-        real_a = str(markupsafe.escape(s))
+        try:
+            real_x = xmlSafe(s)
+            real_a = str(markupsafe.escape(s))
+        except Exception as ex:
+            ch.oracle_failures.append({"kind": "escape", "function": "xmlSafe", "string": s[:300],
+                                       "exception": f"{type(ex).__name__}: {ex}"[:200]})
+            continue
         mx, ma = outs[i], outs[len(strings) + i]
         if any(c in s for c in "&<>\"'"):
             ch.nontrivial.add(s)
@@ -192,7 +198,10 @@ def _escape_ok(s: str, function: str) -> bool:
     import markupsafe
     from lxml import etree
     from dashlive.server.template_tags import xmlSafe
-    esc = xmlSafe(s) if function == "xmlSafe" else str(markupsafe.escape(s))
+    try:
+        esc = xmlSafe(s) if function == "xmlSafe" else str(markupsafe.escape(s))
+    except Exception:
+        return False
     try:
         el = etree.fromstring(f"<r a=\"{esc}\" b='{esc}'>{esc}</r>".encode("utf-8"))
     except etree.XMLSyntaxError:
@@ -316,8 +325,48 @@ def evaluate_case(case, keep_body=False):
                                   "elements_benign": O.skeleton_size(b)})
                 else:
                     fails += value_rule(case, root, troot)
+    if root is not None:
+        fails += follow_links(case, root, url)
     res["failures"] = fails
     return res
+
+
+def follow_links(case, root, url):
+    """the links the document itself spells out, requested exactly as written (query string kept, relative
+    references resolved against the request URL): PatchLocation two seconds later, and a Location that
+    differs from the request URL.  Their 200 answers are manifest / patch responses like any other."""
+    import c05_oracle as O
+    e = env()
+    out = []
+    q = "{%s}" % O.MPD_NS
+    links = []
+    pl = root.find(q + "PatchLocation")
+    if pl is not None and pl.text and pl.text.strip():
+        links.append(("PatchLocation", pl.text.strip(), 2))
+    for loc in root.findall(q + "Location")[:1]:
+        if loc.text and loc.text.strip():
+            links.append(("Location", loc.text.strip(), 0))
+    for what, text, later in links:
+        target = urllib.parse.urljoin("http://localhost" + url, text)
+        parts = urllib.parse.urlsplit(target)
+        rel = parts.path + ("?" + parts.query if parts.query else "")
+        if what == "Location" and rel == url:
+            continue
+        try:
+            now = datetime.datetime.fromisoformat(case["now"].replace("Z", "+00:00")) + datetime.timedelta(seconds=later)
+            st, body, _ = e.fetch(case, url=rel, now=now)
+        except Exception as ex:       # a link the client cannot even request
+            out.append({"rule": "R1-well-formed", "what": f"{what} of the response cannot be requested: {type(ex).__name__}",
+                        "followed": what, "link": text[:200]})
+            continue
+        if st != 200:
+            continue
+        _r, fl = O.check_document(body)
+        for f in fl:
+            f["followed"] = what
+            f["link"] = text[:200]
+        out += fl
+    return out
 
 
 def case_fails(case):
@@ -514,6 +563,74 @@ def fixed_cases(thorough: bool = False):
                 out.append({"kind": "multi", "manifest": name, "mode": "vod", "stream": stream, "query": [],
                             "rawquery": False, "host": "localhost", "now": "2024-05-06T07:08:09Z",
                             "stored": {}, "hostile": []})
+    def plain(kind, stream, name, mode, q, now="2024-05-06T07:08:09Z", stored=None):
+        return {"kind": kind, "manifest": name, "mode": mode, "stream": stream, "query": [list(x) for x in q],
+                "rawquery": False, "host": "localhost", "now": now, "stored": dict(stored or {}), "hostile": []}
+
+    # stored stream defaults: every option family given by the stream's defaults, left to them (empty query)
+    # or overridden in the URL by a falsy but legal value
+    dvecs = ["depth=20&drm=all&acodec=any", "events=ping,scte35&ping__inband=0&ping__count=2&scte35__inband=0&scte35__count=1&time=xsd&base=0",
+             "mup=-1&timeline=1&abr=0&depth=45", "start=epoch&depth=60&patch=1&time=direct&drm=playready-pro,clearkey"]
+    overrides = [[], [["drm", "none"], ["depth", "0"]], [["events", ""], ["base", "1"], ["time", ""]],
+                 [["timeline", "0"], ["abr", "1"], ["mup", "0"], ["patch", "0"]]]
+    k = 0
+    for name, mft in W.manifests().items():
+        for mode in mft["modes"]:
+            for i, dv in enumerate(dvecs):
+                for j, ov in enumerate(overrides):
+                    k += 1
+                    if not thorough and (i + j + k) % 4:
+                        continue
+                    out.append(plain("single", "bbb", name, mode, ov, stored={"defaults": dv}))
+    # option values on numeric boundaries and in unusual but legal spellings
+    big = ["0", "1", "2147483647", "2147483648", "4294967295", "4294967297", "8589934593", "9007199254740993",
+           "9223372036854775807"]
+    bnd = [[["events", "ping"], ["ping__inband", "0"], ["ping__count", "2"], ["ping__start", v], ["ping__duration", w]]
+           for v, w in zip(big, reversed(big))]
+    bnd += [[["events", "scte35"], ["scte35__inband", "0"], ["scte35__count", "3"], ["scte35__timescale", v],
+             ["scte35__interval", w], ["scte35__program_id", "65535"]] for v, w in (("1", "1"), ("90000", "2147483648"), ("4294967295", "1"), ("10000000", "9007199254740993"))]
+    bnd += [[["events", "ping"], ["ping__inband", "0"], ["ping__count", c]] for c in ("0", "1", "2", "3", "9999", "10000", "10001")]
+    bnd += [[["depth", d]] for d in ("4999999", "5000000", "5000001", "1000.0", "9e4", "False", "")]
+    bnd += [[["mup", d]] for d in ("0", "1", "2147483648", "3.5", "")] + [[["update", "2147483647"]], [["update", "4294967296"]],
+            [["abr", "False"]], [["base", ""]], [["timeline", "False"]], [["leeway", "0"]], [["drift", "-0"]]]
+    for i, q in enumerate(bnd):
+        for name, mode in (("hand_made.mpd", "live"), ("hand_made.mpd", "vod"), ("manifest_n.mpd", "live"), ("manifest_e.mpd", "live")):
+            if any(x[0] == "depth" and x[1].startswith(("49", "50")) for x in q) and name != "manifest_e.mpd":
+                continue      # a five million second SegmentTimeline is minutes of rendering
+            if not thorough and (i + len(name)) % 2:
+                continue
+            out.append(plain("single", "bbb", name, mode, q))
+    # clocks far from today, and the clock on a loop boundary of the media after 0 ... 10^5 loops
+    far = ["0100-01-01T00:00:03.500000Z", "1479-06-30T23:59:59.750000Z", "1900-03-01T00:00:07Z", "1970-01-01T00:01:00.500000Z",
+           "2036-02-07T06:28:16.250000Z", "2038-01-19T03:14:08Z", "2040-02-06T06:28:16.999999Z", "2100-03-01T00:00:00.999999Z",
+           "9999-12-31T23:59:58.750000Z"]
+    for name, mft in W.manifests().items():
+        if "live" not in mft["modes"]:
+            continue
+        for i, now in enumerate(far):
+            base = _dt.datetime.fromisoformat(now.replace("Z", "+00:00")).replace(microsecond=0)
+            for j, (kind, stream) in enumerate((("single", "bbb"), ("multi", "c05mpf"), ("single", "synodd"))):
+                if not thorough and (i + j) % 3:
+                    continue
+                start = [W.segchecks.iso(base - _dt.timedelta(seconds=3)), "today", W.segchecks.iso(base - _dt.timedelta(seconds=61))][(i + j) % 3]
+                out.append(plain(kind, stream, name, "live", [["start", start], ["depth", "20"]], now=now))
+        for loops in (0, 1, 2, 100000):
+            for us in (0, 999999):
+                base = _dt.datetime(2024, 5, 6, 7, 8, 9, tzinfo=utc)
+                out.append(plain("single", "bbb", name, "live",
+                                 [["start", W.segchecks.iso(base - _dt.timedelta(seconds=40 * loops))], ["depth", "20"], ["timeline", "1"]],
+                                 now=W.segchecks.iso(base + _dt.timedelta(microseconds=us))))
+    # shape of the stored media: every template x mode on the synthetic streams
+    for stream in W.SYNTHETIC:
+        for name, mft in W.manifests().items():
+            for mode in mft["modes"]:
+                out.append(plain("single", stream, name, mode, [["depth", "20"]] if mode == "live" else []))
+    # exact string lengths for a stored and a requested string
+    for i, n in enumerate(W.LENGTHS + ([1048576] if thorough else [])):
+        text = ("<&>\"'x\u00e9" * (n // 7 + 1))[:n]
+        c = plain("single", "tears", ["hand_made.mpd", "manifest_b.mpd"][i % 2], "vod", [["x", text[:min(n, 65537)]]], stored={"title": text})
+        c["hostile"] = ["stored:title", "q:0"]
+        out.append(c)
     # track-layout grid: streams whose audio / video / text files share or spread track ids and codec
     # families x every template x mode x track-selection options (what the grouping code looks at)
     k = 0
@@ -648,6 +765,21 @@ def ch_manifest_lex(ctx, bodies_out: list | None = None) -> Channel:
                 lex_lines.append(f"autoesc {hx(ident)}")
                 lex_meta.append(("raw", case, "Patch", "mpdId", m.group(1), ident))
         ch.sample({"url": res["url"][:160], "hostile": case["hostile"], "typed_attributes": len(typed)}, limit=4)
+    # history: the first requests of the run once more, after everything else the process has served
+    for case in cases[:ctx.scale(60, 300)]:
+        if case["hostile"]:
+            continue
+        try:
+            res = evaluate_case(case)
+        except Exception as e:
+            ch.errors.append(f"{type(e).__name__}: {e} on re-issued {json.dumps(case)[:200]}")
+            continue
+        ch.evaluations += 1
+        ch.count("re-issued")
+        if res["status"] == 200 and res["failures"] and len(ch.oracle_failures) < 25:
+            rec = failure_record(case, res, shrink=False)
+            rec["history"] = "re-issued after the other requests of the run"
+            ch.oracle_failures.append(rec)
     outs = _driver(ch, lex_lines)
     for out, meta in zip(outs, lex_meta):
         if out is None:
@@ -980,6 +1112,13 @@ def matches_finding(finding, failure):
         # only the layouts kept outside the generators, and nothing but colliding AdaptationSet ids
         return (case.get("stream") in env().W.LAYOUTS_OUTSIDE and
                 all(f["rule"] == "R5-unique-id" and f["what"].startswith("duplicate AdaptationSet@id") for f in fails))
+    if cls == "track-outlasts-reference":
+        return (case.get("stream") == "synlong" and
+                all(f["rule"] == "R4-uint" and f.get("attribute") == "d" and f.get("value", "").startswith("-") for f in fails))
+    if cls == "fragments-numbered-from-zero":
+        return (case.get("stream") == "synzero" and
+                all(f["rule"] == "R4-uint" and f.get("attribute") == "presentationTimeOffset"
+                    and f.get("value", "").startswith("-") for f in fails))
     if cls == "start-after-now":
         try:
             from dashlive.utils.date_time import from_isodatetime
